@@ -353,7 +353,17 @@ func (e *Evaluator) evalExpr(expr Expr) (*Cell, error) {
 				return nil, e.error(expr.Token(), err.Error())
 			}
 
-			(*obj.Obj)[kv.Key] = newCell
+			key := kv.Key
+			if kv.KeyToken.Tag == Str {
+				// a quoted key is a string literal like any other: the same
+				// escapes, the same error for an unknown one
+				keyCell, err := e.evalString(kv.Key)
+				if err != nil {
+					return nil, e.error(kv.KeyToken, err.Error())
+				}
+				key = *keyCell.Value.Str
+			}
+			(*obj.Obj)[key] = newCell
 		}
 		return NewCell(obj), nil
 	default:
